@@ -26,7 +26,7 @@ ASSUMPTIONS = ["out-of-envelope values are not judged (only acceptance inside th
                "value at the altitude the frame itself reports must not be inferred as BDS60",
                "T1 observes the isXX predicates of the repository itself; their soundness/completeness is what T2/T3 judge",
                "DF20 BDS 6,0 contents are generated with IAS within 10 kt of the Mach-consistent value at the frame's altitude"]
-REQUIRED = ["same_payload_under_another_header_first", "t0_random", "t1_df17", "t1_commb", "t1_empty", "t4_none", "t4_decided50", "t4_decided60", "t4_both", "t5_alt_le0", "t5_metric_header_altitude", "t6_within_0.3kt_inside_the_tolerance", "t6_within_0.3kt_outside_the_tolerance", "t4_reference_within_ulps_of_a_candidate", "t4_df20_header_altitude_consistent_with_mach_and_ias",
+REQUIRED = ["same_payload_under_another_header_first", "t0_random", "t1_df17", "t1_commb", "t1_empty", "t4_none", "t4_decided50", "t4_decided60", "t4_both", "t5_alt_le0", "t5_metric_header_altitude", "t6_within_0.3kt_inside_the_tolerance", "t6_within_0.3kt_outside_the_tolerance", "t4_reference_within_ulps_of_a_candidate", "t4_mach_zero_ias_exactly_20_decided", "t4_df20_header_altitude_consistent_with_mach_and_ias",
             "t5_alt_pos"] + \
            ["t2_BDS%s" % r for r in ("10", "17", "20", "30", "40", "44", "45", "50", "60")] + \
            ["t3_BDS%s" % r for r in ("10", "17", "20", "30", "40", "44", "45", "50", "60")]
@@ -389,6 +389,7 @@ def vxy(v, ang):
 
 def m_t4(ctx, case):
     from pyModeS import bds
+    zero_mach = [0]
     IS = isfuncs()
     rng = ctx.rng
     for _ in range(case["n"]):
@@ -413,6 +414,11 @@ def m_t4(ctx, case):
                 mb = put(put(put(mb, 12, 12, 1), 13, 13, 1), 14, 23, rng.randint(60, 500))
             if st[2]:
                 mb = put(put(mb, 24, 24, 1), 25, 34, rng.randint(30, 250))
+                if st[1] and (mb >> 43) & 1 and rng.random() < 0.06:
+                    # Mach available and exactly 0.000 with IAS 19 / 20 / 21 kt: the only place where the Mach-IAS difference is an
+                    # exact number - "differs by more than 20 kt" does not include exactly 20
+                    mb = put(put(mb, 25, 34, 0), 14, 23, rng.choice((19, 20, 20, 21)))
+                    zero_mach[0] += 1
             if st[3]:
                 v = rng.randint(-187, 187)
                 mb = put(put(put(mb, 35, 35, 1), 36, 36, 1 if v < 0 else 0), 37, 45, v & 511)
@@ -489,8 +495,8 @@ def m_t4(ctx, case):
         amb = False
         if m60 is not None and i60 is not None:
             d = abs(i60 - isa.mach2cas(m60, H) / isa.KTS)
-            if abs(d - 20) < 1.0:
-                amb = True
+            if abs(d - 20) < 1.0 and m60 != 0:
+                amb = True           # (Mach exactly 0 means CAS exactly 0: the difference is the integer IAS itself - decidable, "more than 20" excludes 20)
             elif d > 20:
                 allowed = {"BDS50"}
         if allowed is None and not amb:
@@ -516,6 +522,8 @@ def m_t4(ctx, case):
         if r[1] not in allowed:
             ctx.violation("is50or60-wrong", frame=hx, args=[spd, trk, alt], expected=sorted(allowed), observed=r[1])
         ctx.hit("t4_both" if allowed == {"BDS50,BDS60"} else "t4_decided50" if allowed == {"BDS50"} else "t4_decided60")
+        if m60 == 0 and i60 == 20:
+            ctx.hit("t4_mach_zero_ias_exactly_20_decided")
         ctx.nontrivial(("t4", hx, spd, trk, alt))
 
 
